@@ -342,8 +342,25 @@ Verdict_concsnap(ev) ==
            <<"shared-contexts-unchanged", ev.ctxa = ev.ctxb>>,
            <<"shared-state", ev.shb = ev.sha>> >>)
 
+\* ---------------- family "cond": Condition.GoError / String (the trap mechanism of C03) ----------------
+CondName(b) == CASE b = F_OVF -> "overflow" [] b = F_UNF -> "underflow" [] b = F_INEXACT -> "inexact" [] b = F_SUBN -> "subnormal"
+                 [] b = F_ROUNDED -> "rounded" [] b = F_DIVUNDEF -> "division undefined" [] b = F_DIVZERO -> "division by zero"
+                 [] b = F_DIVIMP -> "division impossible" [] b = F_INVALID -> "invalid operation" [] b = F_CLAMPED -> "clamped" [] OTHER -> ""
+NamedBits == <<F_OVF, F_UNF, F_INEXACT, F_SUBN, F_ROUNDED, F_DIVUNDEF, F_DIVZERO, F_DIVIMP, F_INVALID, F_CLAMPED>>
+RECURSIVE CondStr(_, _, _)
+CondStr(fl, i, acc) == IF i > Len(NamedBits) THEN acc
+                       ELSE IF Bit(fl, NamedBits[i]) THEN CondStr(fl, i + 1, IF acc = "" THEN CondName(NamedBits[i]) ELSE acc \o ", " \o CondName(NamedBits[i]))
+                       ELSE CondStr(fl, i + 1, acc)
+Verdict_cond(ev) ==
+  LET sys == Bit(ev.r, F_SYSOVF) \/ Bit(ev.r, F_SYSUNF)
+      trapped == And(ev.r, ev.t)
+  IN Names(<< <<"goerror", /\ ev.ret = ev.r
+                          /\ ev.err = (IF sys THEN "exponent out of range" ELSE IF trapped # 0 THEN CondStr(trapped, 1, "") ELSE "")>>,
+              <<"string",  ev.s = CondStr(ev.r, 1, "") /\ ev.any = (ev.r # 0)>> >>)
+
 Verdict(ev) ==
   CASE ev.k = "a" -> Verdict_a(ev)
+    [] ev.k = "cond" -> Verdict_cond(ev)
     [] ev.k = "conc" -> Verdict_conc(ev)
     [] ev.k = "concsnap" -> Verdict_concsnap(ev)
     [] ev.k = "race" -> {"data-race"}
